@@ -40,14 +40,12 @@ class RecursiveChecker(ConversionsVisitor[Conv, Any], ObjectVisitor[Any]):
     def __init__(self, default_conversion: DefaultConversion):
         super().__init__(default_conversion)
         self._cache = recursion_cache(self.__class__, default_conversion)
-        # Types cached as recursive by this checker; recursive entries of the shared
-        # cache cannot be used to skip a type, because they can come from the
-        # unfinished visit of another checker, running in another thread.
-        self._cached_recursive: Set[RecursionKey] = set()
-        self._recursive: Dict[RecursionKey, Set[RecursionKey]] = {}
-        self._all_recursive: Set[RecursionKey] = set()
+        # Graph of the types met by this checker (each one is visited once); a type is
+        # recursive when it belongs to a cycle of this graph, which is only known once
+        # the whole graph has been visited (cycles can be nested)
+        # (dicts used as ordered sets: the traversal order does not depend on hashes)
+        self._edges: Dict[RecursionKey, Dict[RecursionKey, None]] = {}
         self._guard: List[RecursionKey] = []
-        self._guard_indices: Dict[RecursionKey, int] = {}
 
     def any(self):
         pass
@@ -88,30 +86,67 @@ class RecursiveChecker(ConversionsVisitor[Conv, Any], ObjectVisitor[Any]):
 
     def visit(self, tp: AnyType):
         rec_key = (tp, self._conversion)
+        if self._guard:
+            self._edges[self._guard[-1]][rec_key] = None
         # A type cached as not recursive cannot be part of a cycle, so it can be skipped;
         # but one cached as recursive by another checker tells nothing about the types
-        # currently visited, which could then be wrongly cached as not recursive.
-        if rec_key in self._cached_recursive or self._cache.get(rec_key) is False:
-            pass
-        elif rec_key in self._guard_indices:
-            recursive = self._guard[self._guard_indices[rec_key] :]
-            self._recursive.setdefault(rec_key, set()).update(recursive)
-            self._all_recursive.update(recursive)
-        else:
-            self._guard_indices[rec_key] = len(self._guard)
-            self._guard.append(rec_key)
-            try:
-                super().visit(tp)
-            finally:
-                self._guard.pop()
-                self._guard_indices.pop(rec_key)
-            if rec_key in self._recursive:
-                for key in self._recursive[rec_key]:
-                    self._cache[key] = True
-                    self._cached_recursive.add(key)
-                assert self._cache[rec_key]
-            elif rec_key not in self._all_recursive:
-                self._cache[rec_key] = False
+        # currently visited (its visit can be unfinished, in another thread).
+        if rec_key in self._edges or self._cache.get(rec_key) is False:
+            return
+        self._edges[rec_key] = {}
+        self._guard.append(rec_key)
+        try:
+            super().visit(tp)
+        finally:
+            self._guard.pop()
+        if not self._guard:
+            self._publish()
+
+    def _publish(self):
+        # Strongly connected components of the graph (Tarjan's algorithm, iterative):
+        # a type is recursive if its component has several types, or if it refers
+        # to itself.
+        edges = self._edges
+        index: Dict[RecursionKey, int] = {}
+        low: Dict[RecursionKey, int] = {}
+        stack: List[RecursionKey] = []
+        on_stack: Set[RecursionKey] = set()
+        for root in edges:
+            if root in index:
+                continue
+            index[root] = low[root] = len(index)
+            stack.append(root)
+            on_stack.add(root)
+            work = [(root, iter(edges[root]))]
+            while work:
+                node, successors = work[-1]
+                for succ in successors:
+                    if succ not in edges:
+                        continue  # cached as not recursive
+                    if succ not in index:
+                        index[succ] = low[succ] = len(index)
+                        stack.append(succ)
+                        on_stack.add(succ)
+                        work.append((succ, iter(edges[succ])))
+                        break
+                    elif succ in on_stack:
+                        low[node] = min(low[node], index[succ])
+                else:
+                    work.pop()
+                    if work:
+                        parent = work[-1][0]
+                        low[parent] = min(low[parent], low[node])
+                    if low[node] == index[node]:
+                        component = []
+                        while True:
+                            key = stack.pop()
+                            on_stack.discard(key)
+                            component.append(key)
+                            if key == node:
+                                break
+                        recursive = len(component) > 1 or node in edges[node]
+                        for key in component:
+                            self._cache[key] = recursive
 
 
 class DeserializationRecursiveChecker(
